@@ -16,7 +16,7 @@ import sys
 import time
 import traceback
 
-from .common import ForkError, ForkTimeout, derive_seed, fork_call, jkey
+from .common import ForkError, ForkTimeout, derive_seed, isolated_call, jkey, set_slot
 
 RUN_TIMEOUT = float(os.environ.get('VERIF_RUN_TIMEOUT', '120'))
 
@@ -37,7 +37,7 @@ class RefCache(object):
             self.hits += 1
             return self.memo[key]
         self.evals += 1
-        val = fork_call(self.evaluate, (request,), timeout=self.timeout, label='reference')
+        val = isolated_call(self.evaluate, (request,), timeout=self.timeout, label='reference')
         self.memo[key] = val
         return val
 
@@ -74,12 +74,22 @@ def merge_stats(a, b):
     return a
 
 
+def execute_isolated(prop, plan, sched_spec=None, timeout=RUN_TIMEOUT, label='run'):
+    """Execute a plan in a fork-server child.  The plan is passed through a JSON round trip first so
+    that the bytes the child unpickles (hence its heap) do not depend on where the plan came from
+    (generator, shrinker or replay file)."""
+    import json
+    canon = json.loads(json.dumps(plan))
+    sched = json.loads(json.dumps(sched_spec)) if sched_spec is not None else None
+    return isolated_call(prop.execute, (canon, sched), timeout=timeout, label=label)
+
+
 def run_one(prop, mode, base, run_index, refs):
     """Execute and judge one simulated run.  Returns (violations, stats, harness_errors)."""
     seed = derive_seed(base, prop.ID, mode, run_index)
     plan = prop.generate(seed, mode)
     try:
-        result = fork_call(prop.execute, (plan,), timeout=RUN_TIMEOUT, label='run %s/%d' % (mode, run_index))
+        result = execute_isolated(prop, plan, None, label='run %s/%d' % (mode, run_index))
     except ForkTimeout as e:
         return [], {'runs': 1}, [{'kind': 'timeout', 'mode': mode, 'run_index': run_index,
                                   'seed': seed, 'msg': str(e)}]
@@ -102,6 +112,7 @@ def run_one(prop, mode, base, run_index, refs):
 
 
 def _worker(prop, mode, base, wid, nworkers, deadline, max_runs, stop, wfd, start_index):
+    set_slot(wid + 1)
     refs = prop.make_refs()
     stats = {}
     errors = []
@@ -142,7 +153,7 @@ def _worker(prop, mode, base, wid, nworkers, deadline, max_runs, stop, wfd, star
 def explore(prop, mode, base, budget_s, max_runs=10 ** 9, jobs=None, start_index=0):
     """Run one exploration phase on `jobs` workers; returns (stats, violations, errors, wall)."""
     jobs = jobs or int(os.environ.get('VERIF_JOBS') or os.cpu_count() or 4)
-    jobs = max(1, min(jobs, max_runs))
+    jobs = max(1, min(jobs, max_runs, 64))
     stop = mmap.mmap(-1, 8)
     stop[0] = 0
     t0 = time.monotonic()
